@@ -203,6 +203,8 @@ pub fn row_for(fe: &FrontEnd) -> Option<Row> {
                 seg("style", Kind::NonProse, "<style>.zzqclass { color: zzqcolor; }</style>", false),
                 seg("heading", Kind::Prose, "<h1 class=\"zzqclass\">{}</h1>", false),
                 seg("paragraph-with-url", Kind::Prose, "<p>{} http://zzqhost.example/zzqpath {}</p>", false),
+                seg("paragraph-with-entities", Kind::Prose, "<p>{} &amp; {}</p>", false),
+                seg("paragraph-after-multibyte-attribute", Kind::Prose, "<p title=\"zzqé😀\" data-zzq=\"世\">{}</p>", false),
             ],
         },
         (Class::Typst, _) => Row {
